@@ -17,6 +17,51 @@ def cmp_norm(e):
     return None
 
 
+class GuardEdges(list):
+    """[(switch block, target)] that also remembers the predicates it was selected with, so that a guard which is stored in a
+    variable first (`let fresh = a && b; if !fresh { return }`) is recognised where the variable is tested (only_through)."""
+
+    def __init__(self, edges=(), preds=(), plain=(), present=False):
+        super().__init__(edges)
+        self.preds = list(preds)
+        self.plain = list(plain)      # edges added without a predicate (removed literally)
+        self.present = present or bool(edges)
+
+    def __add__(self, other):
+        if isinstance(other, GuardEdges):
+            return GuardEdges(list(self) + list(other), self.preds + other.preds, self.plain + other.plain, self.present or other.present)
+        return GuardEdges(list(self) + list(other), self.preds, self.plain + list(other), self.present or bool(other))
+
+    def __radd__(self, other):
+        return GuardEdges(list(other) + list(self), self.preds, list(other) + self.plain, self.present or bool(other))
+
+    def __bool__(self):
+        return bool(len(self)) or self.present
+
+
+class _EffCond:
+    """a condition as a predicate sees it: the effective expression of a switch (after following a stored verdict)"""
+
+    def __init__(self, expr, ce=None):
+        self.expr = expr
+        is_bool = expr[0] != "discr"
+        self.true_target = (ce.true_target if ce is not None and ce.true_target is not None else 1) if is_bool else None
+        self.false_target = (ce.false_target if ce is not None and ce.false_target is not None else 2) if is_bool else None
+        self.arms = list(ce.arms) if ce is not None else []
+        self.otherwise = ce.otherwise if ce is not None else None
+        self.cond = getattr(ce, "cond", None)
+        self.bb = getattr(ce, "bb", None)
+
+    def is_discr(self):
+        return self.expr[0] == "discr"
+
+    def target_for(self, v):
+        for val, t in self.arms:
+            if val == v:
+                return t
+        return self.otherwise
+
+
 class FnCtx:
     """A function body with its expression builder and condition table."""
 
@@ -119,7 +164,22 @@ class FnCtx:
                     t = ce.target_for(x)
                 if t is not None:
                     edges.append((bb, t))
-        return edges
+        # the same decision stored in a bool first (tested later through the variable)
+        present = bool(edges)
+        if not present:
+            for L, ds in self._tracked_bools().items():
+                for d in ds:
+                    de = self._def_expr(d)
+                    while de[0] == "un" and de[1] == "Not":
+                        de = de[2]
+                    if de[0] == "const":
+                        continue
+                    try:
+                        if pred(_EffCond(de)) is not None:
+                            present = True
+                    except Exception:
+                        pass
+        return GuardEdges(edges, [pred], (), present)
 
     def cmp_guards(self, pred):
         """pred(op, a, b) -> 'true'|'false'|None on normalised comparisons"""
@@ -153,6 +213,24 @@ class FnCtx:
         return out
 
     def only_through(self, event_blocks, guard_edges, also_removed=()):
+        preds = getattr(guard_edges, "preds", None)
+        if preds:
+            plain = list(getattr(guard_edges, "plain", [])) + list(also_removed)
+
+            def gp(e, outcome, ce=None):
+                fake = _EffCond(e, ce)
+                for p in preds:
+                    try:
+                        r = p(fake)
+                    except Exception:
+                        r = None
+                    if r is None:
+                        continue
+                    for x in (r if isinstance(r, (list, tuple)) else [r]):
+                        if x == outcome:
+                            return True
+                return False
+            return not self.reach_avoiding(event_blocks, gp, removed_edges=plain)
         r = self.mir.reachable(0, removed_edges=list(guard_edges) + list(also_removed))
         return not (r & set(event_blocks))
 
@@ -183,6 +261,32 @@ class FnCtx:
                     out[e[1]] = ds
         return out
 
+    def _reach_plain(self, event_blocks, guard_pred, start, removed):
+        """reach_avoiding without any stored-verdict tracking (fallback when the state space is too large)"""
+        m = self.mir
+        seen, st, found = {start}, [start], {}
+        evset = set(event_blocks)
+        while st:
+            bb = st.pop()
+            if bb in evset:
+                found[bb] = [bb]
+            term = m.blocks[bb].term
+            for s in m.succ(bb):
+                if (bb, s) in removed or s in seen:
+                    continue
+                if term.kind == "switch":
+                    ce = self.ces[bb]
+                    tt, ft = ce.true_target, ce.false_target
+                    if tt is not None and (s == tt or s == ft) and tt != ft:
+                        outs = ["true" if s == tt else "false"]
+                    else:
+                        outs = [v for v, t in ce.arms if t == s] + (["otherwise"] if s == ce.otherwise else [])
+                    if any(guard_pred(ce.expr, o, ce) for o in outs):
+                        continue
+                seen.add(s)
+                st.append(s)
+        return found
+
     def _variant_defs(self, ds):
         """[(variant index, 'Option' | 'Result')] per definition when every definition of a local fixes its variant, else None"""
         if len(ds) < 2:
@@ -205,7 +309,7 @@ class FnCtx:
             return self.eb.call(obj, bb, 0)
         return self.eb.rvalue(obj.rv, 0)
 
-    def reach_avoiding(self, event_blocks, guard_pred, start=0, const_bools=True):
+    def reach_avoiding(self, event_blocks, guard_pred, start=0, const_bools=True, removed_edges=()):
         """Blocks of `event_blocks` reachable from `start` along paths that take no guard edge.
         guard_pred(expr, outcome) -> bool is asked for every switch edge with the *effective* condition
         (a switch on a bool variable is replaced by the expression last assigned to it on that path;
@@ -213,6 +317,7 @@ class FnCtx:
         Returns {event_block: witness path (list of blocks)}."""
         from collections import deque
         m = self.mir
+        removed = set(tuple(x) for x in removed_edges)
         tracked = self._tracked_bools()
         # only variables that can carry a guard are followed (others would only multiply states)
         relevant = {}
@@ -238,7 +343,10 @@ class FnCtx:
                     while de[0] == "un" and de[1] == "Not":
                         de = de[2]
                     exprs.append(de)
-                keep = all(x[0] == "const" for x in exprs)
+                # (also when only some definitions are constants: `a && b && !c` stored in a bool is `false` on the short-circuit
+                # paths and the last operand otherwise — the constant definitions are what prunes the infeasible continuation)
+                # — but only in functions with few such variables: every mixed carrier multiplies the search states
+                keep = all(x[0] == "const" for x in exprs) or (any(x[0] == "const" for x in exprs) and len(tracked) <= 6)
             if keep:
                 relevant[L] = ds
         tracked = relevant
@@ -268,12 +376,46 @@ class FnCtx:
         for L, ds in tracked.items():
             for n, d in enumerate(ds):
                 defsite.setdefault(d[1], []).append((d[0], d[2], L, n))
+        # liveness of a carrier: its tag only matters in blocks from which a switch that tests it can still be reached;
+        # elsewhere the tag is dropped, which merges states (a function with a dozen stored verdicts would otherwise multiply them)
+        test_blocks = {}
+        for bb0, ce0 in self.ces.items():
+            e0 = ce0.expr
+            L0 = None
+            if e0[0] == "local" and not e0[2]:
+                L0 = e0[1]
+            elif e0[0] == "discr" and e0[1][0] == "local" and not e0[1][2]:
+                L0 = e0[1][1]
+            elif e0[0] == "discr" and e0[1][0] == "call" and e0[1][2]:
+                a0 = E.strip_casts(e0[1][2][0])
+                if a0[0] == "local" and not a0[2]:
+                    L0 = a0[1]
+            if L0 in tracked:
+                test_blocks.setdefault(L0, set()).add(bb0)
+        preds = m.preds()
+        live = {}
+        for L0, tb in test_blocks.items():
+            seen_l, st_l = set(tb), list(tb)
+            while st_l:
+                x = st_l.pop()
+                for p0 in preds.get(x, ()):
+                    if p0 not in seen_l:
+                        seen_l.add(p0)
+                        st_l.append(p0)
+            live[L0] = seen_l
         start_state = (start, ())
         prev = {start_state: None}
         q = deque([start_state])
         found = {}
         evset = set(event_blocks)
+        budget = 250000
         while q:
+            budget -= 1
+            if budget < 0 and tracked:
+                # too many combinations of stored verdicts: decide without following them (coarser, never unsound:
+                # more paths are considered feasible)
+                return self.reach_avoiding(event_blocks, guard_pred, start=start, const_bools=False, removed_edges=removed_edges) \
+                    if const_bools else self._reach_plain(event_blocks, guard_pred, start, removed)
             st = q.popleft()
             bb, tags = st
             if bb in evset and bb not in found:
@@ -289,6 +431,8 @@ class FnCtx:
                 tagd[L] = n
             term = m.blocks[bb].term
             for s in m.succ(bb):
+                if removed and (bb, s) in removed:
+                    continue
                 tg = dict(tagd)
                 for (k, i, L, n) in tdefs:
                     if k == "t":
@@ -339,7 +483,7 @@ class FnCtx:
                     ambiguous = tt is not None and tt == ft
                     if not ambiguous and any(guard_pred(e, o, ce) for o in outs):
                         continue
-                ns = (s, tuple(sorted(tg.items())))
+                ns = (s, tuple(sorted((k2, v2) for k2, v2 in tg.items() if s in live.get(k2, ()))))
                 if ns not in prev:
                     prev[ns] = st
                     q.append(ns)
@@ -371,6 +515,35 @@ def must_call(fx, body, suffixes, memo, depth=3):
     ok = bool(ev) and not (m.reachable(0, removed_blocks=list(ev)) & rets)
     memo[key] = ok
     return ok
+
+
+def leaf_defs(fc, e, depth=4):
+    """the expressions a value can have: a local with several definitions (match arms, an Option verdict that is unwrapped later,
+    the result of an inlined helper) is expanded into the definitions' expressions, `Some(x)` / `Ok(x)` followed by its payload
+    projection is reduced to x, definitions that cannot flow along the projection (None for `as Some`) are dropped"""
+    e0 = E.strip_casts(e)
+    if depth <= 0:
+        return [e0]
+    if e0[0] == "local":
+        ds = fc.mir.whole_defs(e0[1])
+        if len(ds) > 1 or (len(ds) == 1 and e0[2]):
+            out = []
+            for d in ds:
+                de = E.strip_casts(fc._def_expr(d))
+                path = tuple(e0[2])
+                if path and de[0] == "adt" and isinstance(path[0], str) and path[0].startswith("as "):
+                    if de[2] != path[0][3:]:
+                        continue                      # other variant: does not reach this projection
+                    if len(path) > 1 and str(path[1]).isdigit() and int(path[1]) < len(de[3]):
+                        de = de[3][int(path[1])]
+                        path = path[2:]
+                    else:
+                        path = path[1:]
+                if path:
+                    de = E.with_path(de, path)
+                out.extend(leaf_defs(fc, de, depth - 1))
+            return out
+    return [e0]
 
 
 def compared_param_fields(fc):
